@@ -8,7 +8,10 @@ dst = f"/verif/seeded/{slug}"
 os.makedirs(dst, exist_ok=True)
 for f in os.listdir(src):
     p = os.path.join(src, f)
-    if f == "meta.json" or os.path.isdir(p) or f.endswith(".log"):
+    if f == "meta.json" or f.endswith(".log") or f in ("bin", "target"):
+        continue
+    if os.path.isdir(p):
+        shutil.copytree(p, os.path.join(dst, f), dirs_exist_ok=True, ignore=lambda d, names: [n for n in names if os.path.isfile(os.path.join(d, n)) and os.path.getsize(os.path.join(d, n)) > 300_000])
         continue
     if os.path.getsize(p) > 300_000:  # compiled debuggee etc.
         continue
